@@ -13,7 +13,13 @@ import (
 // Rng is SplitMix64: every random choice of a run derives from VERIF_SEED.
 type Rng struct{ s uint64 }
 
-func NewRng(seed uint64) *Rng { return &Rng{s: seed*0x9E3779B97F4A7C15 + 0x1234567} }
+func NewRng(seed uint64) *Rng {
+	// non-linear scramble: with a plain affine start, seed n+1 would replay seed n's stream shifted by one draw
+	r := &Rng{s: seed*0x9E3779B97F4A7C15 + 0x1234567}
+	r.s = r.U64() ^ (seed * 0xD1342543DE82EF95)
+	r.s = r.U64()
+	return r
+}
 func (r *Rng) U64() uint64 {
 	r.s += 0x9E3779B97F4A7C15
 	z := r.s
